@@ -254,6 +254,30 @@ def width(ty):
 from .sym import split_phis as sym_split_phis, find_phi as sym_find_phi  # noqa: E402
 
 
+def _has_reader_unknown(t):
+    if isinstance(t, tuple) and t:
+        if t[0] in ("rd", "rdelem"):
+            return True
+        return any(_has_reader_unknown(x) for x in t)
+    if isinstance(t, list):
+        return any(_has_reader_unknown(x) for x in t)
+    return False
+
+
+def _bare_limit(c):
+    """`<writer-side term> relop <constant>` (possibly negated)"""
+    while isinstance(c, tuple) and c and c[0] == "not":
+        c = c[1]
+    if not (isinstance(c, tuple) and len(c) == 4 and c[0] == "op" and c[1] in ("<", ">", "<=", ">=")):
+        return False
+    a, b = c[2], c[3]
+    for x, y in ((a, b), (b, a)):
+        if isinstance(y, tuple) and y and y[0] == "c" and isinstance(y[1], (int, float)) and not isinstance(y[1], bool):
+            if isinstance(x, tuple) and x and x[0] != "c" and not _has_reader_unknown(x):
+                return True
+    return False
+
+
 class Matcher:
     """Walk the writer's and the reader's event lists in lockstep."""
 
@@ -344,6 +368,11 @@ class Matcher:
                 if ex in ("err",) or (ex == "return" and is_err_value(exval)):
                     if truth is True:
                         raise Mismatch(f"the reader rejects what the writer produced: condition {term_str(c, 4)} holds on a reader error path", dec[0][2])
+                    # an error branch the reader takes on a bare comparison between something the writer wrote (every
+                    # read value in it has been identified with a writer term) and a constant: nothing on the writer's
+                    # side keeps the value out of that range, so the reader refuses data the writer produces
+                    if truth is None and _bare_limit(c):
+                        raise Mismatch(f"the reader refuses values the writer can produce: it fails when {term_str(c, 4)}, and the writer puts no such bound on what it writes", dec[0][2])
                     continue
                 rest = evs if ex == "return" else evs + dec[1:]
                 if ex == "return" and getattr(self, "return_sink", False):
